@@ -5,10 +5,10 @@ import time
 
 from . import common as C
 
-ALL_LISTS = ["P1", "P2", "P3", "P4", "P5", "F1", "F2", "F3", "F4", "F5", "F6", "V1", "V2", "V3", "V4", "V5", "V6", "V7", "V8", "V9", "V10",
-             "M1", "M2", "M3"]
+ALL_LISTS = ["P1", "P2", "P3", "P4", "P5", "P6", "P7", "F1", "F2", "F3", "F4", "F5", "F6", "F7", "F8", "V1", "V2", "V3", "V4", "V5", "V6", "V7",
+             "V8", "V9", "V10", "V11", "M1", "M2", "M3"]
 TRACKED = ["P3", "P4", "P5", "F3", "F4", "F5", "F6", "V3", "V4", "V7", "V9", "V10", "M2", "M3"]
-ALIGNED = ["P2", "F2", "V1", "V3", "V5", "V6", "V7", "V8", "V9", "M1"]
+ALIGNED = ["P2", "P6", "F2", "F7", "V1", "V3", "V5", "V6", "V7", "V8", "V9", "M1"]
 VARYING = ["V1", "V2", "V3", "V4", "V5", "V6", "V7", "V8", "V9", "M1", "M2", "M3"]
 TRAIT_KINDS = ["T000", "T001", "T010", "T011", "T100", "T101", "T110", "T111"]
 
@@ -81,8 +81,12 @@ def spec(prop, tier):
                     "C04": ["P3", "F2", "F5", "V2", "V5", "V6", "M1", "M2"], "C05": ["P2", "F2", "V1", "V5", "V6", "M1"]}[prop]
             runs = hist_runs(pick, tier, depth=6) + [R(l, "AE", "hist", depth=5, junk=1) for l in lists if l not in pick] + \
                 big_runs([l for l in ("F2", "V1", "V2", "V5", "V8", "M1") if l in lists], tier, depth=5)
-            if prop in ("C03", "C05"):
+            if prop == "C03":
                 runs += pair_runs([l for l in pick if l in ("F2", "V1", "V5", "M1")], ["NP"], tier, 4)
+            if prop == "C05":
+                # footprint clause: histories like "move the contents away, then copy-assign a small vector into the
+                # moved-from one" need five operations
+                runs += pair_runs(["F1", "F2", "V1", "V5", "M1"], ["AE", "NP"], tier, 5)
             if prop == "C04":
                 # fixed sizes / span counts after copy, move, swap between vectors with different fixed sizes; elements
                 runs += pair_runs(["F1", "F3", "F5", "M1", "M2"], ["AE", "NP"], tier, 4) + elem_runs(["F3", "M2", "V3"], ["AE"], tier, 2)
@@ -354,4 +358,14 @@ def run_check(prop, tier):
                             "(size, AlignAs) x count type, every fixed-size vector, every N and every distribution of varying "
                             "counts, filled to exactly the declared capacity and budget (each case is a distinct input)")
             assumptions.append("layout family translation units are compiled with -O0 (4x faster to build); the history runs use -O1")
+    if prop == "C02" and not internal:
+        # emplace_back with every source form x source type: a source that is copied with the wrong width or past its
+        # end is a memory-safety violation too (ASan reports of the emplace matrix)
+        from . import emplace_checks
+        ecov, eviol, einternal = emplace_checks.matrix(prop, tier, only_monitor="asan")
+        internal += einternal
+        violations += eviol
+        cov["emplace_cells"] = ecov.get("evaluations", 0)
+        cov["evaluations"] += ecov.get("evaluations", 0)
+        cov["traces_validated_against_impl"] += ecov.get("traces_validated_against_impl", 0)
     return C.finish(prop, tier, LEVEL[prop], cov, violations, assumptions, t0, internal)
